@@ -20,7 +20,7 @@ def candidates(rng, sz, start=1):
     cands += ex
     nxt += len(ex)
     for k in range(sz["sample"]):
-        cands.append(SC.sample_def(rng, nxt + k))
+        cands.append(SC.sample_def(rng, nxt + k, phf=None, fieldless=(k % 4 == 0)))
     return cands
 
 
@@ -57,7 +57,7 @@ def run(tier, seed, rep):
         by_id = {E["id"]: E for E in defs}
         inputs = {E["id"]: SC.gen_inputs(E, facts[E["id"]], rng, sz["cap"], sz["flips"]) for E in defs}
         files = {E["id"]: SG.parse_module(E) for E in defs}
-        exe, failed = pipe.build_corpus("c01", files)
+        exe, failed = pipe.build_corpus("c01", files, strum_features=("derive", "phf"))
         for did, msgs in failed.items():
             E = by_id[did]
             rep.violation(dict(kind="compile_error", msg=msgs[0][:80]),
